@@ -159,7 +159,7 @@ def build(case):
                 prog.add_command(prog.find_command_class("Mute" if n.get("mute") else "Node"), name(i), dict(shared[i]))
             progs.append(prog)
         progs[0].run()
-        vlog.reset()
+        vlog.reset(cap=vlog.LOG.cap)
         return progs[1]
     prog = Program(libraries=LIBS)
     by_object = case.get("build") == "api_objects"
@@ -247,7 +247,7 @@ def check_case(case, rec):
         rec.label("deep:%d" % case["deep"]["n"])
     nodes = list(case["nodes"])
     n = len(nodes)
-    vlog.reset()
+    vlog.reset(cap=40 * (n + 10) + 2000)  # every command is entered once (two log entries): far below the cap
     try:
         prog = build(case)
     except Exception as exc:
@@ -395,7 +395,10 @@ def deep_cases(ctx):
     for n in ((40, 400) if ctx.quick else (40, 150, 400, 1200, 3000)):
         for style in ("chain", "list_chain", "nested_chain", "ladder"):
             for order in ("forward", "reversed", "interleaved"):
-                for build, steps in (("source", ["run", ["read", n - 1], "run"]), ("api", [["read", n // 2], "run", ["read_twice", 1]])):
+                # the second script reads a result near the source before anything was run: that part of the model is then
+                # finished when run() starts, everything downstream of it is not
+                for build, steps in (("source", ["run", ["read", n - 1], "run"]), ("api", [["read", 12], "run", ["read_twice", n - 2], "run"]),
+                                     ("source", ["run", ["extend", [{"A": n - 1}, {"L": [n, 3]}]], "run", ["read", n + 1]])):
                     yield {"deep": {"n": n, "style": style, "order": order}, "build": build, "steps": steps}
 
 
